@@ -171,6 +171,31 @@ impl Driver {
                     l.iter().map(|x| format!("{:?}", x)).collect::<Vec<_>>().join(",")
                 }
             }
+            "LAYERS" => {
+                let t = String::from_utf8(unhex(it.next().unwrap())).unwrap();
+                let l = hooks::alpha_unicode_split(&t);
+                if l.is_empty() { "-".into() } else { l.iter().map(|x| hex(x.as_bytes())).collect::<Vec<_>>().join(";") }
+            }
+            "ALPH" => {
+                let t = String::from_utf8(unhex(it.next().unwrap())).unwrap();
+                let inl = it.next().unwrap() == "1";
+                let chars: Vec<char> = t.chars().collect();
+                let l = hooks::alphabet_languages(&chars, inl);
+                if l.is_empty() { "-".into() } else { l.iter().map(|x| format!("{:?}", x)).collect::<Vec<_>>().join(",") }
+            }
+            "POP" => {
+                let lang = hooks::language_by_name(it.next().unwrap()).expect("language");
+                let t = String::from_utf8(unhex(it.next().unwrap())).unwrap();
+                match hooks::characters_popularity_compare(lang, &t) {
+                    Ok(r) => {
+                        if r.is_nan() || r < 0.0 || r > 1.0 {
+                            self.contract_violations.push(format!("CohOK popularity={} lang={:?}", r, lang));
+                        }
+                        format!("{}", fbits(r))
+                    }
+                    Err(_) => "ERR".into(),
+                }
+            }
             "DECL" => {
                 let b = unhex(it.next().unwrap());
                 match hooks::any_specified_encoding(&b, 4096) {
@@ -243,6 +268,24 @@ impl Driver {
             Some(h) => Some(String::from_utf8(unhex(h)).unwrap()),
             None => panic!("bad NAME answer {l}"),
         }
+    }
+
+    pub fn coherence_model(&mut self, t: &str, thr: f32, langs: &str) -> String {
+        self.send(&format!("COHR {} {} {}", hex(t.as_bytes()), fbits(thr), langs));
+        let _ = self.stdin.flush();
+        self.collect(false).pop().unwrap_or_default()
+    }
+
+    pub fn merge_model(&mut self, lists: &str) -> String {
+        self.send(&format!("MERGEM {}", lists));
+        let _ = self.stdin.flush();
+        self.collect(true).pop().unwrap_or_default()
+    }
+
+    pub fn filter_alt_model(&mut self, c: &str) -> String {
+        self.send(&format!("FALT {}", c));
+        let _ = self.stdin.flush();
+        self.collect(true).pop().unwrap_or_default()
     }
 
     pub fn declared(&mut self, b: &[u8]) -> Option<String> {
